@@ -348,6 +348,8 @@ func registerReflect(m *Machine) {
 	R("Len", func(m *Machine, rv RV, a []Value) Value {
 		m.rvKindCheck(rv, "Len")
 		switch x := rv.get().(type) {
+		case LSlice:
+			return x.Len
 		case Slice:
 			return c.BV(uint64(len(x.V)), 64)
 		case Array:
@@ -419,6 +421,8 @@ func registerReflect(m *Machine) {
 		m.rvKindCheck(rv, "Bytes")
 		switch x := rv.get().(type) {
 		case Slice:
+			return x
+		case LSlice:
 			return x
 		case Array:
 			if rv.P != nil {
